@@ -84,6 +84,9 @@ func TestC08(t *testing.T) {
 	}
 	defer out.Close()
 	run := func(id int, b *WorldBuilder, qs []VQuery, r *Rng, meta string) {
+		if envStr("VERIF_TIER", "quick") != "thorough" && len(qs) > 5 {
+			qs = qs[:5] // a verification costs about a second: keep the quick tier short
+		}
 		line := c08Line{Prop: "C08", ID: id, In: WorldIn{World: b.Snapshot(), Queries: qs}, Meta: meta}
 		nlog := len(b.W.Log)
 		isState := func(i int) bool {
@@ -122,7 +125,11 @@ func TestC08(t *testing.T) {
 		}
 		// cache populated at earlier points of the log's growth
 		ks := []int{}
-		for tries := 0; tries < 3 && nlog > 1; tries++ {
+		nks := 1
+		if envStr("VERIF_TIER", "quick") == "thorough" {
+			nks = 3
+		}
+		for tries := 0; tries < nks && nlog > 1; tries++ {
 			ks = append(ks, r.Intn(nlog-1))
 		}
 		for _, k := range ks {
@@ -175,6 +182,13 @@ func TestC08(t *testing.T) {
 	rng := NewRng(seed*1000003 + uint64(shard) + 808)
 	for i := 0; i < n; i++ {
 		s := rng.U64()
+		if rng.Chance(45) {
+			// recovery patterns (revoked violations, incomplete revocations, fixes): the checkpoints
+			// written on the way are what the cache configurations then start from
+			b, qs := c07Build(t, s)
+			run(shard*1000000+i+1, b, qs, rng, fmt.Sprintf("recovery seed=%d", s))
+			continue
+		}
 		b := NewWorldBuilder(t)
 		g := &histGen{r: NewRng(s), b: b, tipOf: map[string]int{}, lastGood: map[string]int{}, opts: histOpts{fileRules: rng.Chance(15), delegation: rng.Chance(20)}}
 		g.run(4 + rng.Intn(8))
